@@ -73,4 +73,31 @@ CHECKS = {
         "assumptions": ["map iteration over perAccount is canonicalised (sorted keys) by the overlay so that the spawn order of reorg goroutines is a function of the seed",
                         "the verifier never changes its answer for a transaction id except through the account nonce, which only grows"],
     },
+    "C17": {
+        "profile": "p2p", "pkg": "p2psim", "test": "TestC17", "level": "exploration", "env": {"VERIF_PROP": "C17"},
+        "quick": {"workers": 8, "checks": 450}, "thorough": {"workers": 14, "checks": 40000},
+        "timeout": {"quick": "20m", "thorough": "5h"},
+        "rule": "schedsim: 2-3 simulated peers each running the real MessageProtocol (+ rate limiter, connection gater, Peer) over the simulated libp2p host; 1-8 concurrent RequestFrom calls with unique payloads, "
+                "handler latency 0 / 1-500 ms / around the 3 s timeout / beyond it, 1/5 of the callers cancel at a drawn instant; per message a pre-drawn network decision (latency 0, 1-80 ms, ~timeout/2, > timeout; in lossy runs drop 1/10, "
+                "duplicate 1/8 with a gap up to 4 s); in half of the runs the requester threads or the handler threads are stalled (scheduled only when nothing else can run). Every lock, go statement, select, timer and context deadline is decided by the seed. "
+                "Checked over the recorded history: every call returns within (retries+1) x timeout, returned data is the handler's output for that call's payload, a response that reached the requester before its attempt's deadline is not lost, no pending entry is left, nothing is stuck. "
+                "distinct = distinct schedule hashes",
+        "real": ["pkg/p2p message_protocol.go, message.go, rpc.go, ratelimit.go, conngater.go, peer.go (Peer methods)", "request/response codecs"],
+        "stub": ["libp2p host/swarm/streams (simhost: one stream = one message)", "gossipsub, NAT, relay, discovery (not run)", "clock, scheduling, uuid (kernel)"],
+        "distinct_measure": "FNV-64 over the sequence of (scheduled task, park kind) decisions of the run",
+        "assumptions": ["a node is infinitely fast relative to the clock except for explicitly stalled threads: simulated time advances only when no task can run",
+                        "1 ms margin around deadlines, where the order of events at the same instant is a scheduling choice"],
+    },
+    "C18": {
+        "profile": "p2p", "pkg": "p2psim", "test": "TestC18", "level": "exploration", "env": {"VERIF_PROP": "C18"},
+        "quick": {"workers": 8, "checks": 1200}, "thorough": {"workers": 14, "checks": 40000},
+        "timeout": {"quick": "20m", "thorough": "5h"},
+        "rule": "schedsim: one node (real connection gater with its sweeper goroutine, Peer.addPenalty/banPeer, rate limiter with its reset goroutine, MessageProtocol.onRequest) over the simulated libp2p host, four remote peers "
+                "(two sharing an IPv4 address, one IPv6, one optionally permanently blacklisted); 1-14 drawn events: penalty (10/40/60/99/100), malformed envelope, unknown procedure, bursts of well-formed traffic around the per-procedure rate limit, "
+                "clock advance (1 s .. 1 day; above 200 s as a clock jump), inbound/outbound dial. Compared with the reference ban model (score per IP, ban at >=100 for the configured expiry 30 s/2 min/1 h, one sweep interval of slack, "
+                "no verdict for an IP penalised inside the slack window). distinct = distinct event logs",
+        "real": ["pkg/p2p conngater.go, peer.go (addPenalty, banPeer, Disconnect), ratelimit.go, message_protocol.go (onRequest)"],
+        "stub": ["libp2p host/swarm (simhost consults the gater's Intercept* methods in the swarm's order)", "clock and scheduling (kernel)"],
+        "assumptions": ["simhost reports the remote multiaddr without /p2p part, as libp2p connections do", "reference ban model DESIGN A.7"],
+    },
 }
